@@ -89,6 +89,8 @@ impl Property for C10 {
             "mode": if exec_agg { "exec_agg" } else if exec { "exec" } else { "iter" },
             // aggregate runs: half of them with an aggregate whose value shows the ORDER in which the lines arrived
             "agg_in_order": rng.chance(1, 2),
+            // aggregate runs: the statement says DISTINCT (no effect on its table; repeated lines must still all arrive)
+            "agg_distinct": rng.chance(1, 3),
             // the followed file has been removed from its directory (rm, a rename over it) and is still being written
             "unlinked": rng.chance(1, 10),
             "head": head,
@@ -147,12 +149,13 @@ impl Property for C10 {
         let chunks = gen::cut_chunks(&append, &cuts);
         let mode = if exec { Mode::FollowExec { head } } else { Mode::FollowIter { head, cap } };
         let agg_in_order = exec_agg && jbool(case, "agg_in_order");
-        let stmt = if agg_in_order {
-            "SELECT STRING_AGG(x, '|') AS s, COUNT(*) AS c FROM raw"
-        } else if exec_agg {
-            "SELECT x, COUNT(*) AS c FROM raw GROUP BY x"
-        } else {
-            "SELECT input FROM raw"
+        let agg_distinct = exec_agg && jbool(case, "agg_distinct");
+        let stmt = match (agg_in_order, exec_agg, agg_distinct) {
+            (true, _, false) => "SELECT STRING_AGG(x, '|') AS s, COUNT(*) AS c FROM raw",
+            (true, _, true) => "SELECT DISTINCT STRING_AGG(x, '|') AS s, COUNT(*) AS c FROM raw",
+            (false, true, false) => "SELECT x, COUNT(*) AS c FROM raw GROUP BY x",
+            (false, true, true) => "SELECT DISTINCT x, COUNT(*) AS c FROM raw GROUP BY x",
+            _ => "SELECT input FROM raw",
         };
         let mut spec = WorldSpec::new(RAW_DEFS, stmt, mode);
         spec.unlinked_inputs = jbool(case, "unlinked");
@@ -270,6 +273,7 @@ impl Property for C10 {
             }
             out.probe("mode_exec_aggregate", 1);
             out.probe("mode_exec_aggregate_order_sensitive", agg_in_order as u64);
+            out.probe("mode_exec_aggregate_distinct", agg_distinct as u64);
             out.probe("preexisting_tail_with_head", (head && !initial.is_empty() && initial.last() != Some(&b'\n')) as u64);
             return out;
         }
